@@ -305,6 +305,10 @@ class Unbounded(Exception):
     on every iteration."""
 
 
+class _TooDeep(Exception):
+    pass
+
+
 class UnrollMixin:
     """Hooks mixin: `while` loops whose test the abstract case decides are unrolled exactly (the
     values stay abstract terms; only case-decided tests and literal counters drive the control
@@ -312,11 +316,53 @@ class UnrollMixin:
     `uncountable`."""
     unroll = False
     uncountable = False
+    unroll_cap = 600      # literal `for` loops up to this length are unrolled exactly
+
+    fork_undecided = False   # explore both outcomes of an undecided loop test (bounded depth)
+    fork_depth = 40
 
     def unroll_loop(self, interp, node, st):
         if not (self.unroll and isinstance(node, ast.While)):
             return None
-        return self._unroll(interp, node, st, 0)
+        if not self.fork_undecided:
+            return self._unroll(interp, node, st, 0)
+        # exact path enumeration with forking on undecided tests; if the loop does not end within
+        # `fork_depth` iterations along some path, fall back to the havoc summary of the loop
+        saved_paths = interp.paths
+        try:
+            return list(self._unroll_fork(interp, node, st, 0))
+        except _TooDeep:
+            interp.paths = saved_paths
+            self.uncountable = True
+            return list(interp.loop_havoc(node, st, test=node.test))
+
+    def _unroll_fork(self, interp, node, st, depth):
+        from .interp import Outcome
+        if depth > (self.fork_depth if self._forked else 3000):
+            raise _TooDeep()
+        for c, s in interp.ev_cond(node.test, st):
+            if s.raised:
+                yield Outcome('raise', s.raised, s)
+                continue
+            t = interp.decide(c, s)
+            if t is None:
+                self._forked = True
+                branches = list(interp.branch(c, s))
+            else:
+                branches = [(t, s)]
+            for b, s2 in branches:
+                if not b:
+                    yield Outcome('fall', None, s2)
+                    continue
+                for out in interp.exec_block(node.body, s2):
+                    if out.kind in ('fall', 'continue'):
+                        yield from self._unroll_fork(interp, node, out.state, depth + 1)
+                    elif out.kind == 'break':
+                        yield Outcome('fall', None, out.state)
+                    else:
+                        yield out
+
+    _forked = False
 
     def _unroll(self, interp, node, st, depth):
         from .interp import Outcome
